@@ -408,7 +408,7 @@ PROPS["C02"]["kani"].append(EXEC["yield"])
 
 # ---------------- shuttle-std: C04 / C05 / C06 ----------------
 STD_OVERLAY = SEM_OVERLAY + ["shuttle-std/src/thread.rs.append.rs", "shuttle-std/src/sync/mutex.rs.append.rs", "shuttle-std/src/sync/rwlock.rs.append.rs",
-                             "shuttle-std/src/sync/atomic/int.rs.append.rs", "shuttle-std/src/sync/atomic/bool.rs.append.rs", "shuttle-std/src/sync/mpsc.rs.append.rs",
+                             "shuttle-std/src/sync/atomic/int.rs.append.rs", "shuttle-std/src/sync/atomic/bool.rs.append.rs", "shuttle-std/src/sync/atomic/ptr.rs.append.rs", "shuttle-std/src/sync/mpsc.rs.append.rs",
                              "shuttle-std/src/sync/condvar.rs.append.rs", "shuttle-std/src/sync/barrier.rs.append.rs"]
 MUTEX = "shuttle-std/src/sync/mutex.rs"
 RWLOCK = "shuttle-std/src/sync/rwlock.rs"
@@ -438,6 +438,10 @@ ATOM = [
          "forall start value, operands, operation in {load,store,swap,compare_exchange,compare_exchange_weak (against std's strong version),"
          "fetch_and,nand,or,xor,fetch_update}: result and final value equal std::sync::atomic::AtomicBool's; exactly one choice point",
          [ATOMIC + "/bool.rs::AtomicBool::*"]),
+    KSTD(Kb, "C04.atomic.ptr_agrees_with_std", "c04_atomic_ptr_agrees_with_std",
+         "AtomicPtr: load, store, swap, compare_exchange(_weak), fetch_update agree with std::sync::atomic::AtomicPtr in result and final value; "
+         "exactly one choice point", [ATOMIC + "/ptr.rs::AtomicPtr::*"],
+         "pointer operands range over null and three distinct addresses", tier="thorough"),
 ]
 LOCKS = [
     KSTD(K, "C04.mutex.try_lock_free", "c04_mutex_try_lock_free",
@@ -471,7 +475,7 @@ PROPS["C04"] = {
                     "atomics: Ordering::SeqCst only (other orderings are treated identically after a one-time warning)"],
     "not_decided": ["`for all programs at most one holder` as a trace property: follows from inv_M / inv_RW being preserved by every segment; "
                     "the blocking paths of lock()/read()/write() (queued, woken by release) are covered through C18 only",
-                    "poisoning after a panicking holder (needs unwinding through coroutines)", "128-bit atomics, AtomicPtr (instances of the same four primitives)"],
+                    "poisoning after a panicking holder (needs unwinding through coroutines)", "128-bit atomics (instances of the same four primitives)"],
 }
 
 B_CH = "<= 2 messages, <= 1 waiting sender, <= 1 waiting receiver; bound in {None, 0, 1}"
